@@ -1,5 +1,5 @@
 // Correspondence harness for C10 / C11 (format-string parser and field rendering).
-//   fmt route=<f|fv|l1|ev> m=<c|s|a> fmt=<hex|-|N> args=<a;b;c|-> [fr=<float renderings>]
+//   fmt p=<C10|C11> route=<f|fv|l1|ev> m=<c|s|a> fmt=<hex|-|N> args=<a;b;c|-> [fr=<float renderings>]
 //     => ok <hex> | ok <events> | throw <kind> | abort <class> | hang
 // route f  = ST::format(fmt, args…)                 (default validation)
 //       fv = ST::format(validation m, fmt, args…)
@@ -245,9 +245,8 @@ static std::vector<std::string> int_values(const std::string &k) {
     auto U = [](unsigned long long v) { return std::to_string(v); };
     if (k == "i8") return {S(0), S(1), S(-1), S(127), S(-128), S(65), S(-100), S(9), S(10)};
     if (k == "i16") return {S(0), S(1), S(-1), S(32767), S(-32768), S(255), S(256), S(-256), S(9999), S(10000)};
-    // the most negative value of int / long / long long is left to C12 (std::abs, defect 12)
-    if (k == "i32" || k == "wc") return {S(0), S(1), S(-1), S(INT_MAX), S(-INT_MAX), S(65), S(0x10FFFF), S(0x110000), S(0xD800), S(65535), S(65536), S(-65536), S(999999999), S(1000000000), S(8), S(7), S(15), S(16)};
-    if (k == "il" || k == "ill") return {S(0), S(1), S(-1), S(LLONG_MAX), S(-LLONG_MAX), S(0x100000041LL), S(-4294967231LL), S(4294967295LL), S(4294967296LL), S(0x10FFFF), S(0x110000),
+    if (k == "i32" || k == "wc") return {S(0), S(1), S(-1), S(INT_MAX), S(-INT_MAX), S(INT_MIN), S(65), S(0x10FFFF), S(0x110000), S(0xD800), S(65535), S(65536), S(-65536), S(999999999), S(1000000000), S(8), S(7), S(15), S(16)};
+    if (k == "il" || k == "ill") return {S(0), S(1), S(-1), S(LLONG_MAX), S(-LLONG_MAX), S(LLONG_MIN), S(0x100000041LL), S(-4294967231LL), S(4294967295LL), S(4294967296LL), S(0x10FFFF), S(0x110000),
                                           S(999999999999999999LL), S(1000000000000000000LL), S(-1000000000000000000LL), S(65)};
     if (k == "u8" || k == "c8") return {U(0), U(1), U(255), U(65), U(128), U(127), U(9), U(10), U(64)};
     if (k == "u16" || k == "c16") return {U(0), U(1), U(65535), U(65), U(0xD800), U(0xDFFF), U(0x20AC), U(255), U(256), U(4095), U(4096)};
@@ -267,7 +266,7 @@ static std::string random_arg(Rng &rng, bool allow_float) {
     if (c < 6) { const std::string &k = rng.pick(INT_KINDS); return arg_tok(k, rng.pick(int_values(k))); }
     if (c < 9) { const std::string &k = rng.pick(STR_KINDS); return arg_tok(k, hex_bytes(rng.pick(TEXTS))); }
     if (c == 9) return "cn";
-    static const std::vector<double> DV = {0.0, -0.0, 1.5, -2.25, 1e10, 123456.789, 1e-5, INFINITY, NAN, 1e15, -1e15, 0.1, 1e-300};
+    static const std::vector<double> DV = {0.0, -0.0, 1.5, -2.25, 1e10, 123456.789, 1e-5, INFINITY, NAN, 1e15, -1e15, 0.1, 1e-300, 1e100, -1e300, 1e62, 1e63};
     if (c == 10) return arg_tok("d", dbits(rng.pick(DV)));
     static const std::vector<float> FV = {0.0f, 1.5f, -2.25f, 16777216.0f, 0.1f, INFINITY, 3.4e38f};
     return arg_tok("fl", fbits(rng.pick(FV)));
@@ -306,7 +305,11 @@ static std::string random_field(Rng &rng, int nargs, bool allow_bad, bool calm) 
         case 0: case 1: case 2: f += FLAGS[rng.below(sizeof FLAGS - 1)]; break;
         case 3: { static const std::vector<std::string> P = {"*", "0", " ", "}", "{", "_", "\x80", "\xC3", "1", ".", "&", "-"}; f += "_" + rng.pick(P); has_pad = true; break; }
         case 4: case 5: f += safe_number(rng, true, 24); has_pad = true; break;
-        case 6: case 7: f += "." + num_form(rng, 12); break;
+        case 6: case 7:
+            // now and then a precision that pushes a floating-point rendering to 63, 64, 65, 100, 300+ bytes
+            if (rng.chance(1, 6)) { static const std::vector<std::string> LP = {"61", "62", "63", "100", "300"}; f += "." + rng.pick(LP); }
+            else f += "." + num_form(rng, 12);
+            break;
         case 8: f += "&" + num_form(rng, (unsigned)nargs + 1); break;
         default:
             if (allow_bad && rng.chance(1, 3)) { static const std::vector<std::string> B = {"a", " ", "-", "\x80", "{", "*", "g", "\t"}; f += rng.pick(B); }
@@ -355,8 +358,39 @@ static void random_case(Gen &g, uint64_t r, bool calm) {
     for (int i = 0; i < nf; ++i) { s += random_field(rng, nargs, true, calm); s += random_literal(rng); }
     std::string route, m; g.route_of(rng.next(), route, m);
     bool has_float = false; for (auto &t : args) if (t[0] == 'd' || t[0] == 'f') has_float = true;
-    if (!digit_runs_ok(s, has_float ? 40 : 3000)) return;
+    // floats: precision up to a few hundred (renderings far beyond the 64-byte stack buffer), never near 2^20
+    if (!digit_runs_ok(s, has_float ? 400 : 3000)) return;
     g.put(route, m, s, false, args);
+}
+
+// Floating-point renderings around and far beyond the 64-byte stack buffer of format_type(double): 63, 64, 65,
+// 100, 300+ bytes ("{.61f}" "{.62f}" "{.63f}" "{.100e}" "{.300}" of ordinary values, "{f}" of 1e100 and -1e300),
+// bare and with width / alignment / pad / sign, alone and next to other fields; every route.
+static void gen_long_floats(Gen &g, bool thorough) {
+    const std::vector<std::string> specs = {".61f", ".62f", ".63f", ".100e", ".300", "f", ".61", ".62e", ".57e", ".58e", ".59E", ".300f", "e", ".0f", ".40"};
+    const std::vector<std::string> deco = {"", "<", ">", "_*", "0", "+", "<_*", ">0", "+_#>"};
+    const std::vector<long> widths = {0, 10, 64, 65, 120, 400};
+    std::vector<std::string> vals;
+    for (double v : {1.5, -2.25, 1e100, -1e300, 123456.789, 1e62, 1e63, 1e-5, 0.0, 4.9e-324, 1.7976931348623157e308}) vals.push_back("d:" + dbits(v));
+    for (float v : {2.5f, -3.4e38f, 1e-45f}) vals.push_back("fl:" + fbits(v));
+    uint64_t n = 0;
+    for (const std::string &sp : specs)
+        for (const std::string &dc : deco)
+            for (long w : widths)
+                for (const std::string &val : vals) {
+                    ++n;
+                    if (!thorough && (n * 2654435761ULL + g.opt.seed) % 5 != 0) continue;
+                    if (!g.mine()) continue;
+                    // width in front of the precision / class letters (a numeral must not run into another one)
+                    std::string field = "{" + dc + (w ? std::to_string(w) : std::string()) + sp + "}";
+                    std::string route, m; g.route_of(n, route, m);
+                    switch (n % 4) {
+                    case 0: g.put(route, m, field, false, {val}); break;
+                    case 1: g.put(route, m, "a" + field + "{{" + field, false, {val, val}); break;
+                    case 2: g.put(route, m, field + "{&1" + sp + "}|{}", false, {val, "i32:-7"}); break;
+                    default: g.put(route, m, "{}" + field, false, {"cs:78", val}); break;
+                    }
+                }
 }
 
 // Order matters for speed only: a case that trips the documented assertion kills the worker, and the
@@ -371,7 +405,7 @@ static void gen_c10(Gen &g) {
             if (g.mine()) g.put(route, "c", "", true, std::string(args) == "-" ? std::vector<std::string>{} : std::vector<std::string>{args});
     const std::string alpha = std::string("{}_.&019+- xc<a") + '\x80';
     const std::vector<std::vector<std::string>> pool = {
-        {"i32:65"}, {"ill:-9223372036854775807", "cs:6869"}, {"c:65", "b:1", "S:c3a9"}, {"d:" + dbits(1.5)}, {"cn", "u32:4000000000"},
+        {"i32:65"}, {"ill:-9223372036854775808", "cs:6869"}, {"c:65", "b:1", "S:c3a9"}, {"d:" + dbits(1.5)}, {"cn", "u32:4000000000"},
         {"S:68656c6c6f", "i32:-7", "c:-128"}, {"u32:0"}, {"cs:68c3a96c6c6f", "d:" + dbits(-0.25)}, {"b:0", "ull:18446744073709551615", "wc:8364"},
         {"c16:55296"}, {"sv:414243", "i8:-128"}, {"fl:" + fbits(2.5f), "i16:-1", "cn"},
     };
@@ -413,6 +447,8 @@ static void gen_c10(Gen &g) {
             for (long r = SL; r < nhot; r += NS) random_case(g, (uint64_t)r, false);
         }
     }
+    // ---- floating-point renderings of 63, 64, 65, 100, 300+ bytes (the consumers of the parsed spec must stay memory-safe)
+    gen_long_floats(g, thorough);
     // ---- grammar-directed random format strings (1..3 fields, literals between, 0..4 arguments of every type)
     long nrand = thorough ? 1500000 : 60000;
     for (long r = SL; r < nrand; r += NS) random_case(g, 1000000 + (uint64_t)r, true);
@@ -578,6 +614,8 @@ static void gen_c11(Gen &g) {
                                     std::string a = std::string(arg0) == "d" ? "d:" + dbits(v) : "fl:" + fbits((float)v);
                                     g.put(route, m, build_field(f, order), false, {a});
                                 }
+    // ---- floating-point renderings of 63, 64, 65, 100, 300+ bytes: output in full, then padded
+    gen_long_floats(g, thorough);
     // ---- 1..3 fields in all orders with 1..3 arguments, sequential and referenced mixed, literals and escapes between
     long nmulti = thorough ? 1200000 : 40000;
     for (long r = SL; r < nmulti; r += NS) {
